@@ -102,7 +102,10 @@ def w_ritz(ctx, rng, idx, mixed=False):
     vals = []
     # ARPACK may legitimately give up (no convergence, singular shifted factorisation); anything else raised on the eigs path is a failure
     refus = (sla.LinAlgError, np.linalg.LinAlgError) if solver != 'eigs' else (sla.LinAlgError, np.linalg.LinAlgError, ArpackError, ArpackNoConvergence, RuntimeError)
-    for rep in (1, 2, 3, 4):
+    # (a third of the cases follow the run over 12 sweep counts: bookkeeping that looks back over a window of earlier sweeps only
+    # shows from the fifth sweep on, and only on non-monotone runs - interior targets, low-rank guesses)
+    reps = (1, 2, 3, 4) if (idx % 3 or solver == 'eigs') else tuple(range(1, 13))
+    for rep in reps:
         ok, r = call('evp.als', evp.als, A, g, prop=P, tags=tags, refusals=refus, repeats=rep, **kw)
         if not ok:
             ctx.skip('evp_micro_solver_refused')
@@ -113,7 +116,7 @@ def w_ritz(ctx, rng, idx, mixed=False):
     if nev == 1 and solver != 'eigs':
         dist = [abs(v - sigma) for v in vals]
         nA = float(np.linalg.norm(Am, 2))
-        okm = all(dist[k + 1] <= dist[k] + 1e-9 * max(nA, 1.0) for k in range(3))
+        okm = all(dist[k + 1] <= dist[k] + 1e-9 * max(nA, 1.0) for k in range(len(dist) - 1))
         ctx.check('evp.als', 'more_sweeps_not_farther_from_sigma', okm, tags, {'values_by_repeats': vals, 'sigma': sigma, 'dims': dims}, prop=P)
     if idx < 3:
         ctx.sample({'workload': 'ritz', 'dims': dims, 'complex': cplx, 'gevp': gevp, 'number_ev': nev, 'solver': solver, 'sigma': sigma,
